@@ -63,7 +63,7 @@ def generate(rng, tier):
         cases.append(Case("Y %s %s %s" % (sp.s(), E.cfg_str(), data.hex() or "-"), "noncanon"))
         if k % 2 == 0:
             m = E.mutate(rng, data)
-            cases.append(Case("Y %s %s %s" % (sp.s(), E.cfg_str(), m.hex() or "-"), "mutated"))
+            cases.append(Case("Y %s %s %s" % (sp.s(), E.cfg_str(maxs="100000"), m.hex() or "-"), "mutated"))
     return cases
 
 
